@@ -480,6 +480,18 @@ func checkAddConnectionOwnership(c *Ctx, res *report.Result) {
 			okDetail:    "every path wraps it into a managed session or closes it",
 			what:        "AddConnection can return without taking ownership of the " + r.name + " it was handed (the caller considers it handed over and will not close it): the socket and the yamux goroutines outlive shutdown"})
 	}
+	// the caller considers the permit handed over as well: declining the hand-over without giving the
+	// permit back is acceptable only when the lifetime is over (the pool is shutting down)
+	isAllow := func(ins ssa.Instruction) bool {
+		call, ok := ins.(ssa.CallInstruction)
+		return ok && ((call.Common().IsInvoke() && call.Common().Method.Name() == "AllowMoreConns") || flow.IsCallTo(call.Common(), muxPkg, "muxProvider", "AllowMoreConns"))
+	}
+	checkDischarge(c, res, dischargeSpec{rule: "O10.1", construct: "AddConnection: the permit travels with the session or is returned", f: f, start: f.Blocks[0], pos: fnPos(c.Prog, f),
+		isDischarge: func(ins ssa.Instruction) bool { return isManaged(ins) || isAllow(ins) },
+		isEnd:       flow.IsReturn,
+		exemptEdge:  func(a, b *ssa.BasicBlock) bool { return ctxDoneClasses(edgeClasses(a, b)) },
+		okDetail:    "every return either built the managed session (whose shutdown callback returns the permit) or lies on the lifetime-is-over side",
+		what:        "AddConnection can decline a session outside shutdown without returning the permit the connect loop acquired for it (the loop treats addNewMux as the hand-over of the permit): the slot is lost and the pool never returns to full strength"})
 	// the managed session is stored into the table
 	stored := false
 	for _, b := range f.Blocks {
